@@ -76,7 +76,7 @@ def gen(rng, tier):
     for k in range(n_cases):
         world = "mixed" if k % 10 == 9 else "generic" if k % 2 == 0 else "disk"
         nops = rng.randrange(5, 61)
-        c = base.gen_case(rng, world, nops, WEIGHTS, nscen=16, readall=(rng.random() < 0.2))
+        c = base.gen_case(rng, world, nops, WEIGHTS, nscen=17, readall=(rng.random() < 0.2))
         if rng.random() < 0.3:
             pre = detach_scenario(rng, world)
             sh = Shadow()
